@@ -41,7 +41,7 @@ Names == <<
   "C09_ModelChangeAuthorised",
   "C10_CompleteByAssignee", "C10_NodeSelfOnly", "C10_CancelByCreator", "C10_PayerConsent",
   "C11_KeptWhilePaid", "C11_ReleasedAtEnd", "C11_ModelOutlivesShards", "C11_NothingOverdue",
-  "C12_Rescheduled", "C12_StoredOrderUntouched", "C12_ResolvedByBound", "C12_ReplicasAccounted",
+  "C12_Rescheduled", "C12_StoredOrderUntouched", "C12_ResolvedByBound", "C12_ReplicasAccounted", "C12_MigrationUntouched",
   "C13_OrderShardsExist", "C13_ShardListedByItsOrder", "C13_CompletedShardScheduled", "C13_AliasBijection",
   "C14_UsedIsSum", "C14_WorkerIsSum", "C14_ShardPledgedIsSum", "C14_PoolIsSum",
   "C15_Placement",
@@ -91,6 +91,7 @@ Verdict(name, x, g) ==
     [] name = "C12_StoredOrderUntouched" -> V(Kind(x) = "Blocks", C12_StoredOrderUntouched(x))
     [] name = "C12_ResolvedByBound"      -> V(TRUE, C12_ResolvedByBound(s))
     [] name = "C12_ReplicasAccounted"    -> V(TRUE, C12_ReplicasAccounted(s))
+    [] name = "C12_MigrationUntouched"   -> V(Kind(x) = "Blocks", C12_MigrationUntouched(x))
     [] name = "C13_OrderShardsExist"     -> V(TRUE, C13_OrderShardsExist(s))
     [] name = "C13_ShardListedByItsOrder"-> V(TRUE, C13_ShardListedByItsOrder(s))
     [] name = "C13_CompletedShardScheduled" -> V(TRUE, C13_CompletedShardScheduled(s))
